@@ -201,7 +201,10 @@ def get_program(case):
 
 
 CLI_LAST_LINES = ["30 DATA HELLO  ,WORLD  ", "30 REM END OF PART 1   ", "30 ' TRAILING   ", '30 A$="READY  ', "30 DATA X,  ", '30 PRINT "A  ";:B$=" ',
-                  "30 PRINT A", "30 DATA   "]
+                  "30 PRINT A", "30 DATA   ",
+                  # characters that a line-splitting routine of the host language takes for line ends, in a constant, a
+                  # remark and a DATA item: with CR or CR LF line ends the file is the same program
+                  '30 PRINT "PAGE\x0cTWO";"A\x0bB"', "30 REM X\x85Y \u2028 Z", "30 DATA P\x1cQ,\"R\x1dS\",T\x1eU", '30 A$="\u2029 OPEN']
 
 
 def run_cli_tail(case):
